@@ -11,7 +11,7 @@ path length; the source schema is unchanged.
 import copy
 
 from valida.casting import CAST_LOOKUP
-from valida.datapath import DataPath
+from valida.datapath import DataPath, ListValue, MapValue
 from valida.rules import Rule
 from valida.schema import Schema
 
@@ -118,6 +118,21 @@ def generate(seed):
             op = ("validate", r.randrange(ns), r.randrange(len(docs)))
         programs[c].append(op)
         order.append(c)
+    # Fault-like members of the swarm (own PRNG stream, so the fault-free worlds
+    # are exactly what they were): add_schema calls that valida REJECTS because
+    # the root is not a path (None, a tuple, a list, a bare part, a dict).  The
+    # caller catches the exception and carries on with the same schemas.
+    rf = stream(seed, "rejected_adds")
+    if rf.random() < 0.3:
+        for _ in range(rf.randint(1, 2)):
+            pos = rf.randint(0, len(order))
+            c = rf.randrange(n_callers)
+            src = rf.randrange(n_s, ns) if rf.random() < 0.75 else rf.randrange(ns)
+            dst = rf.randrange(n_s) if rf.random() < 0.8 else rf.randrange(ns)
+            if src == dst:
+                dst = (dst + 1) % ns
+            programs[c].insert(order[:pos].count(c), ("bad_add", dst, src, rf.randrange(len(BAD_ROOTS))))
+            order.insert(pos, c)
     return {
         "property": PID,
         "seed": seed,
@@ -270,8 +285,23 @@ def build_root(world, rt):
         raise BuildError("root", e)
 
 
+# roots that are not paths: valida refuses them (TypeError from `/`) - built anew for every call
+BAD_ROOTS = [
+    ("None", lambda: None),
+    ("tuple", lambda: ("a",)),
+    ("list", lambda: ["a"]),
+    ("MapValue()", lambda: MapValue()),
+    ("ListValue()", lambda: ListValue()),
+    ("dict", lambda: {"a": 1}),
+]
+
+
 def exec_op(world, op):
     try:
+        if op[0] == "bad_add":
+            _, dst, src, bi = op
+            world.get("schemas", dst).add_schema(world.get("schemas", src), BAD_ROOTS[bi][1]())
+            return ("ok", "added")
         if op[0] == "add":
             _, dst, src, ri = op
             world.get("schemas", dst).add_schema(world.get("schemas", src), world.roots[ri])
@@ -414,6 +444,32 @@ def on_boundary(eng, c, k, op, out):
     model = st["model"]
     docs = [world.get("docs", i) for i in range(len(world.term["docs"]))]
     vio = []
+    if st["abandoned"]:
+        return vio
+    if op[0] == "bad_add":
+        # A call the library rejects.  Reference: the same call on freshly built
+        # schemas.  If THAT raises, the shared call must raise the same way and -
+        # the caller having been told that nothing was added - every schema must
+        # still be what the model says (the comparison below): "S consists of its
+        # previous rules plus ..." leaves no room for left-overs of a refused call.
+        # If the reference accepts such a root (a tree that coerces it), the model
+        # cannot follow and the rest of this run is not judged (counted).
+        with pristine_state():
+            try:
+                model.fresh_schema(op[1]).add_schema(model.fresh_schema(op[2]), BAD_ROOTS[op[3]][1]())
+                ref = ("ok", "added")
+            except Exception as e:
+                ref = ("raise", type(e).__name__)
+        if ref[0] == "ok" and len(model.schemas[op[2]]) == 0:
+            pass  # nothing to add, so the root was never looked at: a no-op in the model as well
+        elif ref[0] == "ok":
+            st["abandoned"] = True
+            st["rejected_adds_accepted_by_reference"] += 1
+            return vio
+        st["rejected_adds"] += 1
+        if out != ref:
+            vio.append(dict(oracle="rejected_add_differs_from_fresh", locus=f"{BAD_ROOTS[op[3]][0]}:{out[0]}:{out[1] if out[0] == 'raise' else ''}", detail={"op": op, "shared": out, "fresh": ref}))
+            return vio
     if op[0] == "add":
         before = copy.copy(model)
         before.schemas = [list(s) for s in model.schemas]
@@ -441,7 +497,10 @@ def on_boundary(eng, c, k, op, out):
         except Exception as e:  # model cannot be built: harness-side problem
             raise RuntimeError(f"reference model not buildable: {e!r}")
         a, b = rules_proj(fresh.rules), rules_proj(real.rules)
-        role = "source" if op[0] == "add" and i == op[2] else ("receiver" if op[0] == "add" and i == op[1] else "bystander")
+        is_add = op[0] in ("add", "bad_add")
+        role = "source" if is_add and i == op[2] else ("receiver" if is_add and i == op[1] else "bystander")
+        if op[0] == "bad_add" and role != "bystander":
+            role += "_of_rejected_add"
         same_order = a == b
         if not same_order:
             # The property fixes the order only up to "shortest path first": another
@@ -523,7 +582,7 @@ def run(case):
     # step; whether validate() leaves documents, rules and paths alone is C08's
     # statement, not C18's.
     mon = Monitor()
-    world.state = {"model": Model(term), "adds": 0, "semantic_checked": 0, "structural_checked": 0, "behavioural_checked": 0, "tie_order_differs_from_model": 0, "behaviour_skipped_tie_order_and_casts": 0}
+    world.state = {"model": Model(term), "adds": 0, "semantic_checked": 0, "structural_checked": 0, "behavioural_checked": 0, "tie_order_differs_from_model": 0, "behaviour_skipped_tie_order_and_casts": 0, "abandoned": False, "rejected_adds": 0, "rejected_adds_accepted_by_reference": 0}
     eng = Engine(world, case["programs"], exec_op, mon, Scripted(case["decisions"]), mode="op", on_boundary=on_boundary)
     eng.run()
     st = world.state
@@ -541,7 +600,9 @@ def run(case):
         "ops": len(ops),
         "steps": eng.step,
         "adds": st["adds"],
-        "validates": len(ops) - len(adds),
+        "validates": sum(1 for op in ops if op[0] == "validate"),
+        "faults_fired": {"rejected_add": st["rejected_adds"]},
+        "rejected_adds_accepted_by_reference_run_not_judged_further": st["rejected_adds_accepted_by_reference"],
         "same_source_added_more_than_once": 1 if reuse else 0,
         "chained_additions": 1 if chain else 0,
         "structural_comparisons": st["structural_checked"],
@@ -577,6 +638,7 @@ def evidence_info():
             "'re-rooted at R' is read as: R's parts followed by the rule path's parts, the rule path's datum/multi modifiers kept",
             "the S-before + T-at-R reading is only evaluated for cast-free T rules without path-valued arguments and without multi-type modifiers, on documents where every node selected by R is a non-empty list/mapping",
             "operation-boundary histories only; never two writers on one schema, never S.add_schema(S, ...)",
+            "30 % of the worlds also contain 1-2 add_schema calls with a root that is not a path (None, tuple, list, bare part, dict): where the same call on fresh schemas raises, the shared call must raise the same way and is a no-op in the model (a refused addition leaves nothing behind in S or T); if the reference accepts the root the rest of that run is not judged",
             "the order of rules with equally long paths is left open, as the statement leaves it; no digest monitor is used (whether validate() leaves its inputs alone is C08's statement): 'T unchanged' is decided by the model comparison of every schema after every step",
         ],
     }
